@@ -920,6 +920,17 @@ class C08(DamageBase):
             cmds.append("damage 0 %d x%s" % (start + 4, struct.pack("<H", newlen).hex()))
             cmds.append("open af")
             cases.append(("evil%d" % k, cmds))
+        # frame-type flips on a continuation frame whose payload is shaped like a WAL entry: if the checksum
+        # did not cover the type byte, Last -> Full would turn user bytes into a record (NOT a known finding)
+        for k, newtype in enumerate([1, 2]):
+            forged_rec = struct.pack("<QI", 1, 6) + b"forged"
+            forged = bytes([4]) + struct.pack("<QH", 1, 1) + b"q" + forged_rec
+            first_cap = mrl.B - (7 + 12) - 7            # room in the first frame of the second entry
+            filler = first_cap - (11 + 1 + 12)
+            pl = mrl.gen_payload(filler, 9) + forged
+            cmds = ["open af", "create =q", "append =q - x%s" % pl.hex(), "drop",
+                    "damage 0 %d x%02x" % (mrl.B + 6, newtype), "open af"]
+            cases.append(("typeflip%d" % k, cmds))
         return cases
 
     def resolve_flips(self, cases):
